@@ -174,8 +174,12 @@ class Registry:
         self.types.declare(name, t)
         return t
 
-    def untype(self, name):
+    def untype(self, name, strlike=False):
+        """uninterpreted sort.  strlike=True: the values are python strings that the code only hashes, compares
+        (==, <) and passes through str(): an opaque totally ordered key sort (str(x) is x, isinstance(x, str))."""
         t = TUn(name)
+        if strlike:
+            STRLIKE.add(name)
         self.types.declare(name, t)
         return t
 
